@@ -1,0 +1,33 @@
+//go:build verif
+
+// Machine-checked contracts for the OpenAPI plugin main (read by /verif/govc as text).
+
+package main
+
+//@ func parseParameters(parameter string) (params map[string]string)
+//@   pure
+
+// the format parameter selects JSON only for the literal value "json"; everything else renders YAML
+//@ func parseFormat(req *pluginpb.CodeGeneratorRequest) (r openapiv3.OutputFormat)
+//@   requires req != nil
+//@   let ps = parseParameters(req.GetParameter())
+//@   ensures json: (r == openapiv3.FormatJSON) <==> (req.Parameter != nil && inDom(ps, "format") && ps["format"] == "json")
+//@   ensures yaml: r == openapiv3.FormatJSON || r == openapiv3.FormatYAML
+
+// one output file per service, named after the service, with the extension of the chosen format
+//@ func writeServiceFile(plugin *protogen.Plugin, service *protogen.Service, output []byte, format openapiv3.OutputFormat)
+//@   requires plugin != nil && service != nil
+//@   modifies *
+//@   at-call NewGeneratedFile requires name: arg0 == string(service.Desc.Name()) + ".openapi." + ite(format == openapiv3.FormatJSON, "json", "yaml")
+//@   at-call Write requires content: arg0 == output
+//@   ensures one_file: count("NewGeneratedFile") == old(count("NewGeneratedFile")) + 1 && count("Write") == old(count("Write")) + 1
+
+// every service of the file is rendered and written exactly once, each from its own generator
+//@ func processFileServices(plugin *protogen.Plugin, file *protogen.File, format openapiv3.OutputFormat)
+//@   requires plugin != nil && file != nil
+//@   modifies *
+//@   at-call createServiceGenerator requires own_service: arg1 == file.Services[_i1] && arg2 == format
+//@   at-call renderService requires own_generator: arg0 == lastRetRef("createServiceGenerator")
+//@   at-call writeServiceFile requires own_output: arg1 == file.Services[_i1] && arg3 == format
+//@   loop 1 invariant count("writeServiceFile") == old(count("writeServiceFile")) + _i1
+//@   ensures all_services: count("writeServiceFile") == old(count("writeServiceFile")) + len(file.Services)
